@@ -126,7 +126,7 @@ def main(argv):
                     rewrites.append('%s: %s' % (f.item, rw))
             elif f.mode == 'stub':
                 fns_assumed.append(ent)
-        trusted += ['[%s] %s' % (unit, t) for t in scan_assumptions(a)]
+        trusted += ['[%s] %s' % (unit, t) for t in scan_assumptions(a)] + ['[%s] %s' % (unit, t) for t in a.trusted]
         failed_ids = set()
         for fl in r.failures:
             if pid in fl.tags:
